@@ -708,6 +708,33 @@ func init() {
 	}
 }
 
+func init() {
+	// stream: the server streams k messages to the client at a steady pace
+	// below the resend timeout while the client sends a few messages of its
+	// own: inbound traffic must not keep postponing the retransmission of a
+	// lost outbound packet.
+	builders["stream"] = func(name string, p params) *Scenario {
+		sc := &Scenario{}
+		common(sc, p)
+		k := p.int("k", 30)
+		pace := p.dur("pace", 600*time.Millisecond)
+		var sops []Op
+		for i := 0; i < k; i++ {
+			sops = append(sops, Op{Kind: "send", Data: payload('s', i, -1)}, Op{Kind: "sleep", D: pace})
+		}
+		cops := []Op{{Kind: "sleep", D: 2 * pace}}
+		cops = append(cops, sends('c', p.int("kc", 2), -1)...)
+		sc.ClientScripts = [][]Op{cops, recvs(k)}
+		sc.ServerScripts = [][]Op{sops, recvs(p.int("kc", 2))}
+		sc.NoCloseAllowed = !p.has("ka")
+		sc.Monitors = append(sc.Monitors, monPrefix, monDeliveryBound(10*time.Second))
+		sc.Final = append(sc.Final, finalAllDelivered)
+		sc.Cfg.Horizon = 150 * time.Second
+		sc.Cfg.DrainTime = 10 * time.Second
+		return sc
+	}
+}
+
 // ---------------------------------------------------------------- C13: keepalive
 
 func kaSides(sc *Scenario, p params) {
